@@ -38,6 +38,10 @@ SCRIPTS = {
 # the same queries on the Process object of the current entry (process_iter)
 ESCRIPTS = {"name": "(name_of Any FStatE FCmdlineE)", "ppid": "(ppid_of Any FStatE)", "status": "(status_of Any FStatE)"}
 ITERS = (["name", "ppid"], ["status", "ppid", "name"])
+# calls on an object with a history (nothing assumed about _gone / _pid_reused; the pid may have been recycled)
+HSCRIPTS = {"is_running": "h_is_running", "parent": "h_parent", "parents": "h_parents", "children": "h_children",
+            "children_rec": "h_children_rec", "ppid": "h_ppid"}
+GUARDED = ("parent", "parents", "children", "children_rec", "ppid")
 BLOCKS = ("oneshot:cpu_times,name,ppid,status", "oneshotc:cpu_times,name,ppid,status", "oneshot:uids,gids,username",
           "oneshotc:memory_full_info,memory_maps,memory_info", "oneshotc:exe,cmdline,name,exe")
 # other processes that may vanish during a tree call: which pids are worth removing, per call
@@ -132,17 +136,24 @@ def coq_term(case):
     sc = script_of(case["m"], case.get("ord"))
     if sc is None:
         return "JL []"
-    if case.get("then"):
-        scs = [sc] + [script_of(m2, case.get("ord2") if m2.startswith("as_dict:") else case.get("ord")) for m2 in case["then"]]
+    lowb = "true" if case.get("low") else "false"
+    if case.get("then") is not None:
+        if case.get("cls") in ("HG", "HR"):      # histories of an object that learns it is gone / recycled: h_ scripts
+            scs = [HSCRIPTS.get(x) for x in [case["m"]] + case["then"]]
+        else:
+            scs = [sc] + [script_of(m2, case.get("ord2") if m2.startswith("as_dict:") else case.get("ord")) for m2 in case["then"]]
         if any(x is None for x in scs):
             return "JL []"
         den = "[" + "; ".join("%d%%nat" % k for k, _ in case.get("d", [])) + "]"
-        return "run_hist_case %s [%s] %d%%nat None false %s [] true true" % (LAYOUT, "; ".join(scs), KIND_NO[case["base"]], den)
+        v = "None" if case.get("v") is None else "(Some %d%%nat)" % case["v"]
+        return "run_hist_case %s [%s] %d%%nat %s %s %s [] true true %s %s" % (
+            LAYOUT, "; ".join(scs), KIND_NO[case["base"]], v, "true" if case.get("h") else "false", den, lowb,
+            "true" if case.get("reuse") else "false")
     v = "None" if case.get("v") is None else "(Some %d%%nat)" % case["v"]
     den = "[" + "; ".join("%d%%nat" % k for k, _ in case.get("d", [])) + "]"
     ov = "[" + "; ".join("(%s, %d%%nat)" % (_g_str(p), k) for p, k in case.get("ov", [])) + "]"
-    return "run_case %s %s %d%%nat %s %s %s %s true true" % (LAYOUT, sc, KIND_NO[case["base"]], v,
-                                                            "true" if case.get("h") else "false", den, ov)
+    return "run_case %s %s %d%%nat %s %s %s %s true true %s" % (LAYOUT, sc, KIND_NO[case["base"]], v,
+                                                               "true" if case.get("h") else "false", den, ov, lowb)
 
 
 def coq_struct(case, raw):
@@ -150,7 +161,7 @@ def coq_struct(case, raw):
         return {"model": raw[0], "spec": raw[1]}
     if not raw:
         return {"model": None, "spec": None}
-    if case.get("then"):
+    if case.get("then") is not None:
         return {"model": [raw[0], raw[1], raw[2], []], "spec": None}     # raw[0] = the list of outcomes
     return {"model": [raw[0], raw[1], raw[2], []], "spec": None, "model_allowed": raw[3]}
 
@@ -215,8 +226,24 @@ def gen_cases(rng, tier):
             for via in ("as_dict", "iter"):
                 cases_native.append({"kind": "native", "cls": "native-" + via, "nice": n, "prior": prior, "via": via,
                                      "base": "real", "m": via})
+    # histories of ONE object that learns it is gone / recycled, with and without its pid being the cached lowest pid:
+    # (vanish [whole / half-removed] ; is_running() ; guarded call) and (pid recycled ; [is_running() ;] guarded call)
+    cases_hist = []
+    for b in (W.KINDS if tier != "quick" else ("live", "zombie")):
+        for low in (True, False):
+            for m2 in GUARDED:
+                for half in (False, True):
+                    cases_hist.append({"kind": "one", "cls": "HG", "base": b, "m": "is_running", "v": 0, "h": half, "d": [],
+                                       "low": low, "then": [m2], "nsp": [1]})
+                cases_hist.append({"kind": "one", "cls": "HR", "base": b, "m": m2, "v": None, "d": [], "low": low,
+                                   "reuse": True, "then": [], "nsp": [0]})
+                cases_hist.append({"kind": "one", "cls": "HR", "base": b, "m": "is_running", "v": None, "d": [], "low": low,
+                                   "reuse": True, "then": [m2], "nsp": [1]})
+            # the alive, unrecycled lowest-pid object: parent() / parents() answer None / []
+            cases_hist.append({"kind": "one", "cls": "HR", "base": b, "m": "parent", "v": None, "d": [], "low": low,
+                               "then": ["parents"], "nsp": []})
     if tier == "search":
-        return cases_native
+        return cases_native + cases_hist
     ms = method_names()
     FULL_AS_DICT[0] = next(((m, o) for m, o in ms if m.startswith("as_dict:") and o and len(o) > 20), None)
     pairs = [(b, m, o) for b in W.KINDS for m, o in ms]
@@ -284,7 +311,16 @@ def gen_cases(rng, tier):
             for i in range(n):
                 for j in range(i + 1, n):
                     mk("DV", b, m, o, j, [[i, "EACCES" if (i + j) % 2 == 0 else "EPERM"]])
-    return cases_native + cases
+    # the lowest-pid object under the single faults of parent() / parents()
+    for b in (W.KINDS if tier != "quick" else ("live",)):
+        for m in ("parent", "parents"):
+            mk("dry", b, m, None, None, [])
+            cases[-1]["low"] = True
+            for k in range(2):
+                for cls, v, d in (("V", k, []), ("D-EACCES", None, [[k, "EACCES"]])):
+                    mk(cls, b, m, None, v, d)
+                    cases[-1]["low"] = True
+    return cases_native + cases_hist + cases
 
 
 # ------------------------------------------------------------------ implementation side
@@ -332,8 +368,9 @@ def impl_run(case, coq, env):
             if real2 != case["ord2"]:
                 return T("Skip", "as_dict attribute order differs from the one the case was generated for")
     r = W.run_case(env["work"], case["base"], m, vanish=case.get("v"), deny=deny, sticky=True,
-                   ovanish={p: k for p, k in case.get("ov", [])}, half=bool(case.get("h")), then=case.get("then"))
-    if case.get("then"):
+                   ovanish={p: k for p, k in case.get("ov", [])}, half=bool(case.get("h")), then=case.get("then"),
+                   low=bool(case.get("low")), reuse=bool(case.get("reuse")))
+    if case.get("then") is not None:
         return [[_canon_out(o) for o in r["outs"]], [T("%s|%s" % (k, p)) for k, p in r["log"]], bool(r["gone"]), []]
     bad_after = []
     for m2, o2 in sorted(r.get("after", {}).items()):
@@ -350,9 +387,19 @@ def impl_run(case, coq, env):
 def oracle(case, impl):
     """None, or the reason why this outcome breaks the property."""
     out, log, gone, bad_after = impl
-    if case.get("then"):
+    if case.get("then") is not None:
         # a history on one object: the oracle applies to EVERY call; the later calls run without a fault
-        why = oracle({k: v for k, v in case.items() if k != "then"}, [out[0], log, gone, []])
+        if case.get("reuse"):
+            gone = True                    # the process the object was made for no longer exists (its pid was recycled)
+        calls = [case["m"]] + case["then"]
+        for i in case.get("nsp") or []:
+            # the object knows (or finds) that its process is gone / its pid recycled: the guarded call must raise
+            # NoSuchProcess -- whatever the cached lowest pid says
+            o = out[i]
+            if not (o["t"] == "Exc" and o["a"][0]["t"] == "NoSuchProcess" and o["a"][1] and o["a"][1]["t"] == "self"):
+                return "call %d (%s) on an object whose process is gone / whose pid was recycled%s did not raise NoSuchProcess: %s" % (
+                    i + 1, calls[i], " (its pid is the cached lowest pid)" if case.get("low") else "", json.dumps(o))
+        why = oracle({k: v for k, v in case.items() if k not in ("then", "nsp")}, [out[0], log, gone, []])
         if why:
             return "1st call: " + why
         for i, (m2, o2) in enumerate(zip(case["then"], out[1:])):
@@ -383,8 +430,9 @@ def oracle(case, impl):
             return "raises ZombieProcess for a process that is not a zombie"
         if name == "AccessDenied" and not denied and case["base"] != "zombie":
             return "raises AccessDenied although nothing was refused"
-    if case.get("v") == 0 and not denied and m.split(":")[0] not in ("is_running", "children", "children_rec", "wait",
-                                                                      "oneshotc") \
+    lowfirst = case.get("low") and m in ("parent", "parents")    # observation: first call on a gone lowest-pid object -> None
+    if case.get("v") == 0 and not denied and not lowfirst and m.split(":")[0] not in ("is_running", "children",
+                                                                                     "children_rec", "wait", "oneshotc") \
             and not m.startswith("iter:"):
         # gone before the call's first access: an OS-consulting query on a fresh object must raise NoSuchProcess
         if not (out["t"] == "Exc" and out["a"][0]["t"] == "NoSuchProcess"):
@@ -438,7 +486,7 @@ def nontrivial(case, coq, impl):
     if not isinstance(impl, list):
         return False
     n = len(impl[1])
-    if case.get("then"):
+    if case.get("then") is not None:
         return True
     ks = [k for k, _ in case.get("d") or []] + ([case["v"]] if case.get("v") is not None else []) \
         + [k for _, k in case.get("ov") or []]
